@@ -14,6 +14,8 @@ INVARIANT M_OneBlockPerSidecar
 INVARIANT M_ContentPrefixed
 INVARIANT M_SidecarExact
 INVARIANT M_LastBlankLineLost
+INVARIANT M_Cap20K
+INVARIANT M_BigShape
 INVARIANT M_ViewsTruthful
 INVARIANT M_LenOrMarker
 INVARIANT M_InfoFirst
